@@ -30,8 +30,11 @@ package ice
 //@   pure
 //@   ensures result == ite(a.isControlling != 0, Controlling, Controlled)
 
+// The agent a selector works for (a lite selector wraps the real one).
+//@ spec macro selAgent1(x pairCandidateSelector) = ite(istype(x, *controllingSelector), cast(x.payload, *controllingSelector).agent, cast(x.payload, *controlledSelector).agent)
+//@ spec macro selAgent(x pairCandidateSelector) = ite(istype(x, *liteSelector), selAgent1(cast(x.payload, *liteSelector).pairCandidateSelector), selAgent1(x))
 //@ func (*Agent).setSelector
-//@   props C05 C03
+//@   props C05 C03 C04
 //@   requires a != nil
 //@   modifies a.selector, a.selectorLock
 //@   ensures fresh-selector: a.selector != nil && fresh(cast(a.selector, *controllingSelector))
@@ -41,6 +44,7 @@ package ice
 //@   ensures lite-inner-controlling: a.lite && a.isControlling != 0 ==> istype(cast(a.selector, *liteSelector).pairCandidateSelector, *controllingSelector)
 //@   ensures lite-inner-controlled: a.lite && a.isControlling == 0 ==> istype(cast(a.selector, *liteSelector).pairCandidateSelector, *controlledSelector)
 //@   ensures role-unchanged: a.isControlling == old(a.isControlling)
+//@   ensures C04 C05 the-selector-belongs-to-this-agent: selAgent(a.selector) == a
 
 // C17: the pair priority takes the controlling side from the pair's role flag, so the flag of every listed
 // pair has to follow the agent's role: when the role becomes known (pairs are formed before Dial/Accept),
